@@ -122,25 +122,65 @@ pub fn op_tsfmt(case: &Value, _dir: &Path) -> Value {
     })
 }
 
-/// op `tzdata`
+/// op `tzdata`: the zone as data.  `TimeZone::following` of jiff 0.2.5 skips the last explicit transition of zones
+/// whose footer rule has no DST (e.g. Asia/Kolkata 1945-10-14), so the table is built from `TimeZone::to_offset`
+/// itself: sample every 6 hours, bisect every change to the second; the transitions reported by `following` are
+/// added as further candidates (they catch two changes inside one step).
 pub fn op_tzdata(case: &Value, _dir: &Path) -> Value {
     guarded(|| {
         let name = s(case, "zone").ok_or("no zone")?;
         let tz = jiff::tz::TimeZone::get(&name).map_err(|e| e.to_string())?;
-        let lo = jiff::Timestamp::from_nanosecond(ns_of(case, "lo")?).map_err(|e| e.to_string())?;
-        let hi = jiff::Timestamp::from_nanosecond(ns_of(case, "hi")?).map_err(|e| e.to_string())?;
-        let init = tz.to_offset(lo).seconds();
-        let mut trans: Vec<Value> = Vec::new();
-        for t in tz.following(lo) {
-            if t.timestamp() > hi {
+        let lo_ns = ns_of(case, "lo")?;
+        let hi_ns = ns_of(case, "hi")?;
+        let lo = lo_ns.div_euclid(1_000_000_000) as i64;
+        let hi = hi_ns.div_euclid(1_000_000_000) as i64;
+        let off = |sec: i64| -> Result<i32, String> {
+            let t = jiff::Timestamp::new(sec, 0).map_err(|e| e.to_string())?;
+            Ok(tz.to_offset(t).seconds())
+        };
+        let mut cand: Vec<i64> = Vec::new();
+        let step: i64 = 6 * 3600;
+        let mut a = lo;
+        let mut oa = off(a)?;
+        while a < hi {
+            let b = std::cmp::min(a + step, hi);
+            let ob = off(b)?;
+            if ob != oa {
+                // first second in (a, b] whose offset differs from the one at a
+                let (mut x, mut y) = (a, b);
+                while y - x > 1 {
+                    let m = x + (y - x) / 2;
+                    if off(m)? != oa { y = m } else { x = m }
+                }
+                cand.push(y);
+            }
+            a = b;
+            oa = ob;
+        }
+        let lo_ts = jiff::Timestamp::new(lo, 0).map_err(|e| e.to_string())?;
+        for t in tz.following(lo_ts) {
+            let sec = t.timestamp().as_second();
+            if sec > hi || cand.len() > 200000 {
                 break;
             }
-            trans.push(json!([t.timestamp().as_nanosecond().to_string(), t.offset().seconds()]));
-            if trans.len() > 100000 {
-                return Err("too many transitions".to_string());
+            cand.push(sec);
+        }
+        cand.sort();
+        cand.dedup();
+        let init = off(lo)?;
+        let mut cur = init;
+        let mut trans: Vec<Value> = Vec::new();
+        for t in cand {
+            if t <= lo || t > hi {
+                continue;
+            }
+            let o = off(t)?;
+            if o != cur {
+                trans.push(json!([(t as i128 * 1_000_000_000).to_string(), o]));
+                cur = o;
             }
         }
-        Ok(json!({"zone": name, "lo": lo.as_nanosecond().to_string(), "hi": hi.as_nanosecond().to_string(),
-                  "init": init, "trans": trans}))
+        Ok(json!({"zone": name, "lo": (lo as i128 * 1_000_000_000).to_string(),
+                  "hi": (hi as i128 * 1_000_000_000).to_string(), "init": init, "trans": trans}))
     })
 }
